@@ -46,7 +46,7 @@ JudgeC13(t) ==
     LET s     == t.script
         f     == t.final
         fault == s.event \in {"peerClose", "peerEof"} \/ (s.event = "peerBad" /\ s.k <= 3) \/ f.faultTriggered
-        local == s.event \in {"localClose", "localCloseReason"}
+        local == s.event \in {"localClose", "localCloseReason", "localCloseLateRead"}
         nrep  == Count(t, "ReportError")
         known == First(t, {"CloseEnd", "ReportError"})
         late  == Cardinality({i \in Idx(t) : t.events[i].ev = "DeliverIn" /\ known > 0 /\ i > known})
@@ -57,7 +57,13 @@ JudgeC13(t) ==
         b5 == IF (fault \/ local) /\ (f.readPumpAlive \/ f.writePumpAlive \/ f.netCloseCalls = 0)
               THEN {<<"C13", "pump-or-socket-leak", s.event>>} ELSE {}
         b6 == IF local /\ ~f.isClosed THEN {<<"C13", "not-closed-after-local-close">>} ELSE {}
-    IN  b1 \cup b2 \cup b3 \cup b4 \cup b5 \cup b6
+        \* a frame whose transport read returned to the pump only after the local close had returned is never delivered (the one
+        \* tolerated late delivery is a frame the pump already held when the connection was marked closed)
+        ce == First(t, {"CloseEnd"})
+        b7 == IF s.event = "localCloseLateRead" /\ ce > 0
+                 /\ \E i, j \in Idx(t) : ce < i /\ i < j /\ t.events[i].ev = "NetReadReleased" /\ t.events[j].ev = "DeliverIn" /\ t.events[j].n = 7
+              THEN {<<"C13", "frame-read-after-the-close-delivered", s.k>>} ELSE {}
+    IN  b1 \cup b2 \cup b3 \cup b4 \cup b5 \cup b6 \cup b7
 
 \* C08, websocket side: a frame a SHIP peer must never send costs at most the connection - the receive loop goes on (the
 \* regular frame 9 that follows is delivered) or the connection is closed
